@@ -46,6 +46,7 @@ func init() {
 	Register("C13", func(c *RunCtx) { c13Enumerate(c) })
 	Register("C20", func(c *RunCtx) { c20Enumerate(c) })
 	Register("C18", func(c *RunCtx) { c18Run(c) })
+	Register("C15", func(c *RunCtx) { c15Run(c) })
 }
 
 // gatingCfg: histories for access gating and token currency: calls and
